@@ -6,11 +6,13 @@ import (
 	"math/rand/v2"
 	"net/http"
 	"net/http/httptest"
+	"runtime"
 	"strconv"
 	"sync"
 	"time"
 
 	"github.com/c2FmZQ/ech"
+	"github.com/c2FmZQ/ech/dns"
 
 	"verifharness/core"
 	"verifharness/gen"
@@ -439,6 +441,61 @@ func genC12(env *core.Env, emit func(core.Case)) {
 		env.Count(it.stream + "/" + cls)
 	}
 	env.Note(fmt.Sprintf("%d decodable messages driven through Resolver.Resolve via a local DoH server", nres))
+	// memory: header counts that promise far more than the message holds. What one DecodeMessage call allocates
+	// (least of five measurements, so that other goroutines' allocations do not count) stays within
+	// 64 KiB + 1 KiB per input byte (a 2-byte pointer can stand for a 255-byte name, not for more).
+	for ci, b := range c12CountWitnesses() {
+		least := uint64(1 << 62)
+		outcome := "err"
+		for rep := 0; rep < 5; rep++ {
+			var m0, m1 runtime.MemStats
+			runtime.ReadMemStats(&m0)
+			func() {
+				defer func() {
+					if rec := recover(); rec != nil {
+						outcome = "panic"
+					}
+				}()
+				if _, err := dns.DecodeMessage(b); err == nil {
+					outcome = "ok"
+				}
+			}()
+			runtime.ReadMemStats(&m1)
+			least = min(least, m1.TotalAlloc-m0.TotalAlloc)
+		}
+		w := ""
+		if limit := uint64(64<<10 + 1024*len(b)); least > limit {
+			w = fmt.Sprintf("decoding a %d-byte message allocates %d bytes (limit used here: %d)", len(b), least, limit)
+		}
+		if outcome == "panic" {
+			w = "DecodeMessage panicked"
+		}
+		emit(core.Case{Name: fmt.Sprintf("counts/%d", ci), Stream: "counts", Key: fmt.Sprintf("counts/%d", ci), Sig: fmt.Sprintf("counts/%d/%s", ci, outcome),
+			Ops:    []core.Op{{Line: "dns-decode " + core.Hex(b), Kind: 'M', Want: dnsDecodeText(b), Note: "DecodeMessage"}, {Kind: 'X', Note: "memory used by one decode is bounded by the input's length, not by what its header promises", Want: w}},
+			Sample: map[string]any{"stream": "counts", "len": len(b), "allocated": least, "outcome": outcome}})
+		env.Count("counts/" + outcome)
+	}
+}
+
+// c12CountWitnesses: short messages whose section counts are (near) the maximum.
+func c12CountWitnesses() [][]byte {
+	var out [][]byte
+	for sec := 0; sec < 4; sec++ {
+		for _, n := range []int{0xffff, 0x8000, 0x0100} {
+			h := []byte{0, 1, 0x81, 0x80, 0, 0, 0, 0, 0, 0, 0, 0}
+			h[4+2*sec], h[5+2*sec] = byte(n>>8), byte(n)
+			out = append(out, h)
+		}
+	}
+	out = append(out, []byte{0, 1, 0x81, 0x80, 0xff, 0xff, 0xff, 0xff, 0xff, 0xff, 0xff, 0xff})
+	// a real one-question one-answer response whose additional count lies
+	resp := []byte{0, 1, 0x81, 0x80, 0, 1, 0, 1, 0, 0, 0xff, 0xff, 7, 'e', 'x', 'a', 'm', 'p', 'l', 'e', 3, 'c', 'o', 'm', 0, 0, 1, 0, 1,
+		0xc0, 0x0c, 0, 1, 0, 1, 0, 0, 0, 60, 0, 4, 192, 0, 2, 1}
+	out = append(out, resp)
+	resp2 := append([]byte{}, resp...)
+	resp2[6], resp2[7] = 0xff, 0xfe
+	out = append(out, resp2)
+	return out
 }
 
 func connh0(s string) string {
